@@ -331,6 +331,23 @@ pub fn c04(cx: &mut Ctx) {
         cx.op("canproceed");
         cx.op("proceed");
     }
+    // amounts near the top of the number range against a declared length near it: accounted or refused, never
+    // wrapped around
+    for (first, amount) in [(1usize, usize::MAX), (0, usize::MAX), (20, usize::MAX - 10), (1, usize::MAX - 1)] {
+        for n in [u64::MAX, u64::MAX - 5, 1u64 << 63] {
+            cx.case("huge");
+            if !to_send_body(cx, "PUT", "HTTP/1.1", Some(n), false) { continue; }
+            if first > 0 { bwrite(cx, 0, first, 64); }
+            cx.op(&format!("direct {}", amount));
+            cx.op("canproceed");
+            cx.op(&format!("direct {}", amount));
+            cx.op("canproceed");
+            bwrite(cx, 3, 20, 64);
+            cx.op("canproceed");
+            bwrite(cx, 0, 0, 8);
+            cx.op("canproceed");
+        }
+    }
     // declared lengths just beyond u64 (and far beyond): never a body of some wrapped-around length
     for cl in ["18446744073709551616", "18446744073709551617", "18446744073709551618", "18446744073709551619", "36893488147419103232", "99999999999999999999", "184467440737095516150"] {
         for api in 0..2 {
